@@ -20,8 +20,18 @@ from . import replay as RP
 VERIF = os.path.dirname(os.path.dirname(os.path.abspath(__file__)))
 REPO = os.environ.get('VERIF_REPO', '/repo')
 PRELUDE = os.path.join(VERIF, 'prelude')
-TOTAL_MEM_GB = 48
-CORES = 16
+try:
+    CORES = max(2, len(os.sched_getaffinity(0)))
+except Exception:
+    CORES = max(2, os.cpu_count() or 4)
+try:
+    _kb = [int(l.split()[1]) for l in open('/proc/meminfo') if l.startswith('MemAvailable:')][0]
+    TOTAL_MEM_GB = max(8, int(_kb / (1 << 20) * 0.75))
+except Exception:
+    TOTAL_MEM_GB = 24
+# admission budget per job: the address-space cap of a job (memory_gb, default 8) is a ceiling, not what it uses
+# (typical: < 1 GB); jobs that declare memory_gb are budgeted in full
+DEFAULT_BUDGET_GB = 3
 
 TRUSTED_BASE = [
     'cbmc 6.11.0 / goto-cc / goto-instrument --dfcc (contract instrumentation) / kissat SAT solver',
@@ -136,14 +146,14 @@ def main(argv=None):
     def job(meta, variant):
         # per-variant overrides of the unit's run parameters
         meta = dict(meta)
-        for k in ('timeout', 'memory_gb', 'bounded', 'unwind', 'solver', 'object_bits', 'min_reach'):
+        for k in ('timeout', 'memory_gb', 'bounded', 'unwind', 'solver', 'object_bits', 'min_reach', 'properties'):
             if k in variant:
                 meta[k] = variant[k]
         name = meta['name']
         wd = os.path.join(scratch, name + '.' + variant['name'])
         os.makedirs(wd, exist_ok=True)
         rec = {'unit': name, 'variant': variant['name'], 'meta': meta, 'vmeta': variant}
-        mem = float(meta.get('memory_gb', 8))
+        mem = float(meta['memory_gb']) if 'memory_gb' in meta else DEFAULT_BUDGET_GB
         gate.acquire(mem)
         try:
             out_name = name + '.c'
@@ -189,12 +199,21 @@ def main(argv=None):
         return rec
 
     jobs = []
+    skipped_safety = []
     # heavy units first
     order = sorted(sel, key=lambda u: -max([int(u.get('timeout', 300))] + [int(v.get('timeout', 0)) for v in u['variants']]))
     with cf.ThreadPoolExecutor(max_workers=CORES) as ex:
         for u in order:
             for v in u['variants']:
                 if v.get('tier', 'quick') == 'thorough' and args.tier != 'thorough':
+                    continue
+                # a variant that serves this property only through its safety obligations (C07) and is expensive may ask
+                # to be left to the thorough tier there; it still runs in the quick tier of the properties it proves
+                vprops = v.get('properties', u['properties'])
+                if prop not in vprops and prop not in u['safety']:
+                    continue
+                if prop not in vprops and args.tier != 'thorough' and v.get('safety_tier', u.get('safety_tier', 'quick')) == 'thorough':
+                    skipped_safety.append('%s.%s' % (u['name'], v['name']))
                     continue
                 if args.variant and v['name'] not in args.variant:
                     continue
@@ -351,6 +370,7 @@ def main(argv=None):
                 'undecided_clauses': coverage.get('undecided', []),
                 'known_findings_reported': [e['what'] for e, _ in known_lines],
                 'undecided_units': [{'unit': u, 'reason': r} for u, r, _ in undecided],
+                'safety_obligations_left_to_thorough_tier': sorted(skipped_safety),
                 'solver_seconds_total': round(sum(u.get('solver_seconds', 0) for u in ev_units + bounded), 2),
                 'samples': samples,
                 'explanation': 'obligations/discharged count only CBMC obligations of unbounded units that serve this property; bounded stand-ins are listed separately and never counted.',
